@@ -200,9 +200,10 @@ func runC03(c *Ctx) {
 		}
 	}
 	okPriv, okLife := false, false
-	for _, a := range allocsOf(ctor, "ssh/agent.AddedKey") {
-		fs := FieldStores(ctor, a)
-		if vs := fs["PrivateKey"]; len(vs) == 1 && gcall != nil && strip(vs[0]) == extractOf(gcall, 0) {
+	w.Focus(ctor)
+	for _, a := range w.allocsOfDeep(ctor, "ssh/agent.AddedKey") {
+		fs := w.FieldStoresDeep(ctor, a)
+		if vs := fs["PrivateKey"]; len(vs) == 1 && gcall != nil && (strip(vs[0]) == extractOf(gcall, 0) || w.canon(ctor, vs[0]) == extractOf(gcall, 0)) {
 			okPriv = true
 		}
 		if vs := fs["LifetimeSecs"]; len(vs) == 1 && w.Expr(vs[0]) == "p1.PrivateKeyValiditySec" {
